@@ -289,6 +289,9 @@ class BaseCarver(BaseDiscretizer):
             Target of the development dataset, by default ``None``
             Should have the same distribution as y.
         """
+        # checking for previous fits before modifying any attribute
+        self._check_is_not_fitted()
+
         # preparing datasets and checking for wrong values
         x_copy, x_dev_copy = self._prepare_data(X, y, X_dev, y_dev)
 
